@@ -29,6 +29,7 @@ def parseAction (s : String) : Option Action :=
   | ["E", r, p] => do pure (.ctxExit (r == "1" || r == "c") (← parseList p))
   | ["K", p] => do pure (.cancelJoiner (← parseList p))
   | ["N", k, p] => do pure (.nextDone (← k.toNat?) (← parseList p))
+  | ["R", p] => do pure (.cancelRem (← parseList p))
   | _ => none
 
 def obsStr : Obs → String
